@@ -4,7 +4,7 @@ import json, os, glob, re
 V = os.path.dirname(os.path.dirname(os.path.abspath(__file__)))
 rows = []
 missed = 0
-for d in sorted(glob.glob(os.path.join(V, "seeded", "*", ""))):
+for d in sorted(glob.glob(os.path.join(V, "seeded", "C*", ""))):
     m = json.load(open(d + "meta.json"))
     name = os.path.basename(d.rstrip("/"))
     res = m["quick_check_exit_codes_with_change_applied"]
